@@ -247,3 +247,136 @@ Proof.
   split; [vm_compute; reflexivity|]. intros i Hi. cbn in Hi.
   repeat (destruct Hi as [<- | Hi]; [vm_compute; split; [discriminate|reflexivity]|]). destruct Hi.
 Qed.
+
+(* ================= the request slot of a session and slow consumers (coq/Sys/Inflight.v) ================= *)
+(* boundedWaitGroup.Done() without a preceding Add() is a logs.Err.Panicln in a hub / topic goroutine: process death.
+   [Inflight.run init_test init_cfg ls]: any interleaving [ls] of the handler bodies that call Add / Done
+   (Session.subscribe / leave, Hub.run join, topicInit, registerSession, unregisterSession, the slow-consumer drop
+   of broadcastToSessions, cleanUp / unsubAll, evictUser, the write loop's detach) from server start, for any
+   number of sessions and topics, every value of the label parameters (queue-full outcomes, who a broadcast
+   selects, whether a subscription is accepted, which connections have stopped reading).
+   [init_test = true] is the code as it is. *)
+Require Tinode.Sys.Inflight Tinode.Sys.InflightProofs.
+Open Scope N_scope.
+
+(* FULL: on no path is Done reached without a matching Add *)
+Theorem c13_inflight_no_panic :
+  forall ls, Inflight.is_panic (Inflight.run true Inflight.init_cfg ls) = false.
+Proof. exact InflightProofs.run_no_panic. Qed.
+Print Assumptions c13_inflight_no_panic.
+
+(* ... because at every reachable state the slot of a session holds exactly its {sub} / {leave} requests that sit
+   in hub.join, in a topicInit, in a t.reg or in a t.unreg (nil after cleanUp, and then nothing of it is queued) *)
+Theorem c13_inflight_balanced :
+  forall ls c s, Inflight.run true Inflight.init_cfg ls = Inflight.Ok c ->
+    match Inflight.s_inflight (Inflight.c_sess c s) with
+    | Some n => n = Inflight.pending c s
+    | None => Inflight.pending c s = 0%nat
+    end.
+Proof. exact InflightProofs.run_balanced. Qed.
+Print Assumptions c13_inflight_balanced.
+
+(* ... hence at rest (all queues empty) every slot is free: what the driver reads after every operation *)
+Theorem c13_inflight_free_at_rest :
+  forall ls c s, Inflight.run true Inflight.init_cfg ls = Inflight.Ok c -> Inflight.quiescent c = true ->
+    Inflight.s_inflight (Inflight.c_sess c s) = Some 0%nat \/ Inflight.s_inflight (Inflight.c_sess c s) = None.
+Proof. exact InflightProofs.run_quiescent_free. Qed.
+Print Assumptions c13_inflight_free_at_rest.
+
+(* the variant of Topic.unregisterSession that drops the test of msg.init *)
+Definition c13_evict_without_init_test_statement : Prop :=
+  forall ls, Inflight.is_panic (Inflight.run false Inflight.init_cfg ls) = false.
+
+(* refuted: a session attaches, stops reading, the topic broadcasts: the drop path releases a slot nobody took *)
+Theorem c13_evict_without_init_test_refuted : ~ c13_evict_without_init_test_statement.
+Proof. intros H. specialize (H Inflight.w_slow_consumer). rewrite InflightProofs.variant_panics in H. discriminate H. Qed.
+Print Assumptions c13_evict_without_init_test_refuted.
+
+(* ... and a full send queue is the only trigger: without a connection that stops reading the variant is safe too *)
+Theorem c13_evict_without_init_test_partial :
+  forall ls, InflightProofs.no_clog ls = true -> Inflight.is_panic (Inflight.run false Inflight.init_cfg ls) = false.
+Proof. exact InflightProofs.run_variant_partial. Qed.
+Print Assumptions c13_evict_without_init_test_partial.
+
+Example c13_inflight_example :
+  Inflight.run false Inflight.init_cfg Inflight.w_slow_consumer = Inflight.Panic Inflight.site_done_before_add /\
+  Inflight.is_panic (Inflight.run true Inflight.init_cfg Inflight.w_slow_consumer) = false /\
+  InflightProofs.no_clog Inflight.w_slow_consumer = false.
+Proof. vm_compute. repeat split. Qed.
+
+(* ================= requests queued for a topic while it is being loaded (coq/Sys/HeldLoad.v) ================= *)
+(* [HeldLoad.run_held as_is ti join ms rel]: the replies, in order, when session [m_sess join] sends the {sub} [join]
+   for a topic that is not loaded, the requests [ms] of any sessions (none attached: {pub} {note} {get} {set} {del}
+   {leave} {sub}, any ids) arrive while the database call of the load is in flight, and the load then succeeds
+   ([RelOk]) or fails with any error ([RelFail code]).  [as_is = true] is the code as it is. *)
+Require Tinode.Sys.HeldLoad Tinode.Sys.HeldLoadProofs.
+
+(* FULL: every reply goes to the session of a request and carries THAT request's id (never the id of another
+   pending request; the reply to a note carries the note's empty id) *)
+Theorem c13_held_load_id_echo :
+  forall ti join ms rel, HeldLoad.all_own (join :: ms) (HeldLoad.run_held true ti join ms rel) = true.
+Proof. exact HeldLoadProofs.run_held_all_own. Qed.
+Print Assumptions c13_held_load_id_echo.
+
+(* the failure branch of topicInit exactly: one reply to the join, then ONE 503 per queued client message, in queue
+   order, to that message's session with that message's id, then one per queued {del what=topic} *)
+Theorem c13_held_load_failure_exact :
+  forall e h, HeldLoad.release_fail true e h =
+    HeldLoad.own (HeldLoad.h_join h) e
+    :: map (fun m => HeldLoad.own m 503) (HeldLoad.h_client h) ++ map (fun m => HeldLoad.own m 503) (HeldLoad.h_meta h).
+Proof. exact HeldLoadProofs.release_fail_exact. Qed.
+Print Assumptions c13_held_load_failure_exact.
+
+(* the variant whose drain of t.clientMsg answers with join.Id *)
+Definition c13_held_load_join_id_statement : Prop :=
+  forall ti join ms rel, HeldLoad.all_own (join :: ms) (HeldLoad.run_held false ti join ms rel) = true.
+
+Theorem c13_held_load_join_id_refuted : ~ c13_held_load_join_id_statement.
+Proof.
+  intros H. specialize (H HeldLoad.ti_sys_topic HeldLoad.w_join [HeldLoad.w_pub] (HeldLoad.RelFail 500)).
+  rewrite HeldLoadProofs.variant_foreign_id in H. discriminate H.
+Qed.
+Print Assumptions c13_held_load_join_id_refuted.
+
+(* every request other than a note is answered (the queue of the paused topic, 192 slots, not overrun) *)
+Definition c13_held_load_answered_statement : Prop :=
+  forall ti join ms rel m, (length ms <= HeldLoad.client_cap)%nat -> In m (join :: ms) -> HeldLoad.is_note m = false ->
+    HeldLoad.pub_has_id m = true -> HeldLoad.answered (HeldLoad.run_held true ti join ms rel) m = true.
+
+(* REFUTED by the faithful model (and on the real server, see findings/C13.md): a P2P topic is deleted by a
+   {del what=topic} while it is being loaded; the load succeeds; topicInit returns at `if t.isDeleted()` and the
+   {sub} is never answered *)
+Theorem c13_held_load_answered_refuted : ~ c13_held_load_answered_statement.
+Proof.
+  intros H. specialize (H HeldLoad.ti_p2p_topic HeldLoad.w_join [HeldLoad.w_del] HeldLoad.RelOk HeldLoad.w_join).
+  rewrite HeldLoadProofs.join_lost in H. assert (K : false = true); [apply H|discriminate K].
+  - cbn. repeat constructor.
+  - now left.
+  - reflexivity.
+  - reflexivity.
+Qed.
+Print Assumptions c13_held_load_answered_refuted.
+
+(* a second way: the OWNER's {del what=topic} for a group topic that is being loaded is queued in t.meta (t.owner is
+   not known yet); after the load Topic.replyDelTopic finds the owner, logs "SHOULD NOT HAPPEN" and returns without a reply *)
+Theorem c13_held_load_owner_del_unanswered :
+  HeldLoad.answered (HeldLoad.run_held true HeldLoad.ti_grp_topic HeldLoad.w_join [HeldLoad.w_del_owner] HeldLoad.RelOk) HeldLoad.w_del_owner = false.
+Proof. exact HeldLoadProofs.owner_del_lost. Qed.
+Print Assumptions c13_held_load_owner_del_unanswered.
+
+(* ... and these are the only ways to lose an answer: [lost_trigger] = the load SUCCEEDS after a {del what=topic}
+   arrived for a P2P topic, or after the owner's {del what=topic} arrived *)
+Theorem c13_held_load_answered_partial :
+  forall ti join ms rel m, HeldLoadProofs.lost_trigger ti ms rel = false -> (length ms <= HeldLoad.client_cap)%nat ->
+    In m (join :: ms) -> HeldLoad.is_note m = false -> HeldLoad.pub_has_id m = true ->
+    HeldLoad.answered (HeldLoad.run_held true ti join ms rel) m = true.
+Proof. exact HeldLoadProofs.run_held_answered. Qed.
+Print Assumptions c13_held_load_answered_partial.
+
+Example c13_held_load_example :
+  HeldLoad.run_held true HeldLoad.ti_sys_topic HeldLoad.w_join [HeldLoad.w_pub] (HeldLoad.RelFail 500)
+    = [HeldLoad.mkRep 1 500 [115;49]; HeldLoad.mkRep 2 503 [112;55]] /\
+  HeldLoad.run_held false HeldLoad.ti_sys_topic HeldLoad.w_join [HeldLoad.w_pub] (HeldLoad.RelFail 500)
+    = [HeldLoad.mkRep 1 500 [115;49]; HeldLoad.mkRep 2 503 [115;49]] /\
+  HeldLoadProofs.lost_trigger HeldLoad.ti_p2p_topic [HeldLoad.w_del] HeldLoad.RelOk = true.
+Proof. vm_compute. repeat split. Qed.
